@@ -37,9 +37,15 @@ ShapedA(c) == /\ (c.kind # "general" => Len(c.recips) = 1)
 
 \* ---- Part B ----
 Methods == {"m_vm_auth", "m_embedded_assertion", "m_vm_plain"}
+\* a custom header parameter named like a header member the call sets itself (always: alg, kid, typ; by option: the others)
+CollidingNames == {"kid", "alg", "typ", "nonce", "url", "cty", "jwk", "b64", "crit"}
+IsSet(c, name) == CASE name \in {"kid", "alg", "typ"} -> TRUE
+                    [] name = "nonce" -> c.nonce [] name = "url" -> c.url [] name = "cty" -> c.cty
+                    [] name = "jwk" -> c.attach_jwk [] name \in {"b64", "crit"} -> c.b64 = "false"
+                    [] OTHER -> FALSE
 ScopeOfMethod(m) == CASE m = "m_vm_auth" -> {"vm", "authentication"} [] m = "m_embedded_assertion" -> {"assertionMethod"} [] m = "m_vm_plain" -> {"vm"}
 SignCfg == [part : {"B"}, signer : Methods, kid_override : BOOLEAN, attach_jwk : BOOLEAN, b64 : {"none", "true", "false"},
-            typ : BOOLEAN, cty : BOOLEAN, url : BOOLEAN, nonce : BOOLEAN, custom : {"none", "x-custom", "collides"}, detached : BOOLEAN,
+            typ : BOOLEAN, cty : BOOLEAN, url : BOOLEAN, nonce : BOOLEAN, custom : {"none", "x-custom"} \cup CollidingNames, detached : BOOLEAN,
             payload : {"ascii", "dot", "nonutf8"}]
 Attempts == [method_id : {"none", "signer", "other"}, nonce : {"same", "different", "none"},
              scope : {"none", "vm", "authentication", "assertionMethod", "unused_rel"}]   \* unused_rel: a relationship holding no method
@@ -48,7 +54,7 @@ Attempts == [method_id : {"none", "signer", "other"}, nonce : {"same", "differen
 \* a custom header parameter named like a registered one ("kid") cannot be honoured: the header would carry the
 \* member twice, which no JWS reader accepts -- the call has to refuse
 CreateOk(c) == /\ ((c.b64 = "false" /\ ~c.detached) => CompactCharsetOk(c.payload, "Default"))
-               /\ c.custom # "collides"
+               /\ c.custom \notin CollidingNames
 \* which method does the verifier look at?  the configured method id, else the kid of the header
 Resolved(c, a) == IF a.method_id = "signer" THEN c.signer
                   ELSE IF a.method_id = "other" THEN "other"
@@ -62,7 +68,8 @@ VerifyOk(c, a) ==
   /\ m = c.signer /\ NonceMatches(c, a) /\ InScope(m, a.scope)
 
 -----------------------------------------------------------------------------
-Init == /\ cfg \in {c \in EncCfg : ShapedA(c)} \cup SignCfg
+ShapedB(c) == c.custom \in CollidingNames => IsSet(c, c.custom)
+Init == /\ cfg \in {c \in EncCfg : ShapedA(c)} \cup {c \in SignCfg : ShapedB(c)}
         /\ pc = (IF cfg.part = "A" THEN "new" ELSE "create")
         /\ done = 0 /\ produced = "no"
 
